@@ -25,9 +25,9 @@ ToSet(sq) == {sq[i] : i \in 1..Len(sq)}
 TReset == IsEv("reset") /\ seen' = {}
 TParams == IsEv("params") /\ seen' = seen \cup ToSet(r.atoms)
 TMsg == /\ IsEv("msg")
-        /\ LET A == ToSet(r.atoms)  S == ToSet(r.secrets)  OK == ToSet(r.allowed) IN
-             /\ r.dir = "c2m" => /\ (A \cap seen) \subseteq OK            \* NoReuse
-                                 /\ (A \cap S) \subseteq OK               \* NoSecretLeak
+        /\ LET A == ToSet(r.atoms)  S == ToSet(r.secrets)  OK == ToSet(r.allowed)  Known == ToSet(r.known) IN
+             /\ r.dir = "c2m" => /\ (A \cap seen) \subseteq Known         \* NoReuse: only the channel id and balances (establish, close)
+                                 /\ (A \cap S) \subseteq OK               \* NoSecretLeak: only what the message discloses by design
              /\ seen' = seen \cup A
 TNext == TReset \/ TParams \/ TMsg
 TSpec == l = 1 /\ seen = {} /\ [][TNext]_<<l, seen>>
